@@ -92,6 +92,9 @@ type c19Op struct {
 	Kind string `json:"op"`          // accept | hist | reopen
 	H    uint64 `json:"h,omitempty"` // height for accept / hist
 	W    uint64 `json:"w,omitempty"` // window for reopen
+	// Inj (accept only): SaveHistorical calls executed INSIDE the in-flight
+	// UpdateLastAccepted, at the given store operations (c19_inter_test.go)
+	Inj []c19Inj `json:"inj,omitempty"`
 }
 
 type c19Case struct {
@@ -108,7 +111,11 @@ func (c c19Case) shape() string {
 	for _, o := range c.Ops {
 		switch o.Kind {
 		case "accept":
-			fmt.Fprintf(&b, "a%d,", o.H)
+			fmt.Fprintf(&b, "a%d", o.H)
+			for _, in := range o.Inj {
+				fmt.Fprintf(&b, "[@%d:%v]", in.At, in.Hs)
+			}
+			b.WriteByte(',')
 		case "hist":
 			fmt.Fprintf(&b, "h%d,", o.H)
 		default:
@@ -121,6 +128,7 @@ func (c c19Case) shape() string {
 type c19Stats struct {
 	accepts, gaps, hists, reopens, reopenDiff, probes, pruned, acceptsAfterGap int
 	nontrivial                                                                 bool
+	inter                                                                      c19InterStats
 }
 
 // c19Crashed is the pseudo key step returns when the (fault injecting) store
@@ -138,14 +146,17 @@ type c19Sess struct {
 	reopenStore func() error
 	// crashed reports that the store "died" (write-level crash enumeration); nil = healthy store
 	crashed func() bool
+	// hook is the store wrapper that runs SaveHistorical calls inside an in-flight accept; nil = none
+	hook *c19HookDB
 
 	// model
-	W        uint64
-	L        uint64
-	accepted bool
-	ever     map[uint64]bool // heights ever written (or possibly written by an interrupted operation)
-	must     map[uint64]bool // heights that have to be retrievable now
-	sawGap   bool
+	pendingBound bool // an in-flight save at or below the expiry height has not yet been followed by a plain accept
+	W            uint64
+	L            uint64
+	accepted     bool
+	ever         map[uint64]bool // heights ever written (or possibly written by an interrupted operation)
+	must         map[uint64]bool // heights that have to be retrievable now
+	sawGap       bool
 }
 
 func newC19Sess(c c19Case, st *c19Stats, db database.Database) *c19Sess {
@@ -268,9 +279,19 @@ func (s *c19Sess) step(i int, o c19Op, doCheck bool) (string, string) {
 	case "accept":
 		blk := c19Make(s.c.Salt, o.H)
 		gap := s.accepted && o.H != s.L+1
+		var inj *c19InjRun
+		if len(o.Inj) > 0 {
+			if s.hook == nil {
+				return "harness", "history with in-flight historical saves run on a store without the hook wrapper"
+			}
+			inj = s.armInj(o)
+		}
 		err := s.ci.UpdateLastAccepted(ctx, blk)
 		if s.isCrashed() {
 			return c19Crashed, ""
+		}
+		if inj != nil {
+			s.hook.flush(true) // injections whose store operation was never reached run now (= sequentially after the accept)
 		}
 		st.accepts++
 		if gap {
@@ -291,8 +312,24 @@ func (s *c19Sess) step(i int, o c19Op, doCheck bool) (string, string) {
 			st.pruned++
 		}
 		s.commitAccept(o.H)
+		if inj != nil {
+			if inj.err != "" {
+				return "C19/save-historical-error", inj.err
+			}
+			// every injected save completed before or shortly after the accept did:
+			// what the model requires of it is what it requires of a save right after the accept
+			for _, h := range inj.done {
+				s.commitHist(h)
+			}
+			s.noteInj(o, inj)
+		} else if s.pendingBound {
+			st.inter.boundJudgedAfterInFlight++
+			s.pendingBound = false
+		}
 		if doCheck {
-			return s.check(when, true)
+			// a block saved below the window while the accept was in flight may survive
+			// this accept; the bound is judged from the next accept without an overlap
+			return s.check(when, inj == nil)
 		}
 	case "hist":
 		blk := c19Make(s.c.Salt, o.H)
@@ -326,6 +363,7 @@ func (s *c19Sess) step(i int, o c19Op, doCheck bool) (string, string) {
 			return "C19/reopen-error", fmt.Sprintf("New over the existing database with window %d failed: %v", o.W, err)
 		}
 		s.W = o.W
+		s.pendingBound = false // the startup cleanup restores the bound by itself
 		s.prune()
 		if doCheck {
 			return s.check(when, s.accepted)
@@ -360,7 +398,9 @@ func runC19(c c19Case, st *c19Stats) (string, string) {
 	if err != nil {
 		return "harness", "open db: " + err.Error()
 	}
-	s := newC19Sess(c, st, db)
+	hook := &c19HookDB{Database: db}
+	s := newC19Sess(c, st, hook)
+	s.hook = hook
 	defer func() { _ = s.db.Close() }()
 	if c.Backend == "pebble" {
 		s.reopenStore = func() error {
@@ -371,7 +411,8 @@ func runC19(c c19Case, st *c19Stats) (string, string) {
 			if err != nil {
 				return fmt.Errorf("reopen db: %w", err)
 			}
-			s.db = ndb
+			hook = &c19HookDB{Database: ndb}
+			s.db, s.hook = hook, hook
 			return nil
 		}
 	}
@@ -390,10 +431,18 @@ var c19Windows = []uint64{0, 1, 2, 3, 5, 8}
 
 // genC19 generates one history. All heights accepted are strictly increasing
 // (snowman accepts a chain); historical saves are below the last accepted one.
-func genC19(rng interface {
+func genC19(rng c19Rng, backend string, maxOps int) c19Case {
+	return genC19x(rng, backend, maxOps, false)
+}
+
+type c19Rng interface {
 	IntN(int) int
 	Uint64() uint64
-}, backend string, maxOps int) c19Case {
+}
+
+// genC19x: inter = some accepts carry SaveHistorical calls that run while the
+// accept is in flight. With inter == false no additional random numbers are drawn.
+func genC19x(rng c19Rng, backend string, maxOps int, inter bool) c19Case {
 	c := c19Case{Backend: backend, Salt: rng.Uint64(), Window: c19Windows[rng.IntN(len(c19Windows))]}
 	switch rng.IntN(3) {
 	case 0:
@@ -415,6 +464,18 @@ func genC19(rng interface {
 	pGap := []int{0, 5, 15}[rng.IntN(3)]
 	pHist := []int{0, 10, 25}[rng.IntN(3)]
 	pReopen := []int{0, 5, 15}[rng.IntN(3)]
+	pInter := 0
+	if inter {
+		pInter = []int{15, 35, 60}[rng.IntN(3)]
+	}
+	accept := func() {
+		op := c19Op{Kind: "accept", H: L}
+		if inter && rng.IntN(100) < pInter {
+			op.Inj = genC19Inj(rng, W, L, stored)
+		}
+		c.Ops = append(c.Ops, op)
+		stored[L] = true
+	}
 	for len(c.Ops) < n {
 		x := rng.IntN(100)
 		switch {
@@ -430,8 +491,7 @@ func genC19(rng interface {
 				gap = uint64(10 + rng.IntN(300))
 			}
 			L += gap
-			c.Ops = append(c.Ops, c19Op{Kind: "accept", H: L})
-			stored[L] = true
+			accept()
 		case x < pGap+pHist && L > 1:
 			// backfill run: descending from below the contiguous run that ends at L
 			lo := L
@@ -457,8 +517,7 @@ func genC19(rng interface {
 			W = w
 		default:
 			L++
-			c.Ops = append(c.Ops, c19Op{Kind: "accept", H: L})
-			stored[L] = true
+			accept()
 		}
 	}
 	// always finish with a few consecutive accepts so that the consequences of
@@ -499,14 +558,17 @@ func c19Nontrivial(c c19Case) bool {
 
 func TestC19(t *testing.T) {
 	r := kit.Start(t, "C19", "fault_enumeration")
-	r.Rule("history = accept genesis, then a PRNG sequence of consecutive accepts, accepts after a height gap (2..5, around the window, 10..310), SaveHistorical runs (descending below the contiguous stored run, or arbitrary older heights), reopen of the index on the same database with the same or another window from {0,1,2,3,5,8}; memdb and pebble. After every op all four lookups of every height ever written (and its neighbours) are compared with a set model: no accept error, window blocks and genesis present, mappings mutually consistent, nothing never-stored served, at most window+1 non-genesis blocks after each accept/reopen (window>0). Non-trivial = a gap, historical save or window change is followed by a later accept; distinct = distinct (backend, window, op sequence). Write-level crash enumeration: further PRNG histories (and fixed scenarios) run on a fault-injecting store (memdb underneath) that counts the mutating operations reaching the store (Put, Delete, each non-empty batch Write as one atomic operation); the history is run once un-armed (N operations), then for every k in 1..N (all k for short histories and the fixed scenarios, a PRNG sample of k otherwise) and both variants (operation k lost / operation k applied but not acknowledged; everything later dropped) it is replayed on a fresh store armed at k, stopped at the crash, and a NEW index is opened on what survived with the same configuration: New succeeds, the last accepted height is the one before the interrupted operation or the one it was writing and its block is retrievable by height and by id, all mappings of all heights ever written are consistent with the model (genesis and the window of the surviving last accepted height present, nothing else served, at most window+1 non-genesis blocks at or below the last accepted height), the interrupted operation is delivered again, up to 10 further ops of the history and window+2 next heights are accepted with all checks. Non-trivial crash point = the store was not empty (k>1); distinct = distinct (history, k, variant).")
+	r.Rule("history = accept genesis, then a PRNG sequence of consecutive accepts, accepts after a height gap (2..5, around the window, 10..310), SaveHistorical runs (descending below the contiguous stored run, or arbitrary older heights), reopen of the index on the same database with the same or another window from {0,1,2,3,5,8}; memdb and pebble. After every op all four lookups of every height ever written (and its neighbours) are compared with a set model: no accept error, window blocks and genesis present, mappings mutually consistent, nothing never-stored served, at most window+1 non-genesis blocks after each accept/reopen (window>0). Non-trivial = a gap, historical save or window change is followed by a later accept; distinct = distinct (backend, window, op sequence). Write-level crash enumeration: further PRNG histories (and fixed scenarios) run on a fault-injecting store (memdb underneath) that counts the mutating operations reaching the store (Put, Delete, each non-empty batch Write as one atomic operation); the history is run once un-armed (N operations), then for every k in 1..N (all k for short histories and the fixed scenarios, a PRNG sample of k otherwise) and both variants (operation k lost / operation k applied but not acknowledged; everything later dropped) it is replayed on a fresh store armed at k, stopped at the crash, and a NEW index is opened on what survived with the same configuration: New succeeds, the last accepted height is the one before the interrupted operation or the one it was writing and its block is retrievable by height and by id, all mappings of all heights ever written are consistent with the model (genesis and the window of the surviving last accepted height present, nothing else served, at most window+1 non-genesis blocks at or below the last accepted height), the interrupted operation is delivered again, up to 10 further ops of the history and window+2 next heights are accepted with all checks. Non-trivial crash point = the store was not empty (k>1); distinct = distinct (history, k, variant). Interleaved histories (SaveHistorical runs on the syncer goroutine while consensus accepts): the same generator additionally attaches to 15/35/60 % of the accepts one or two injections = (store operation of the in-flight UpdateLastAccepted, list of 1..4 heights below the accepted one: a top-down run across the expiry height, a run entirely below it, heights within 3 of it, or a top-down run below the contiguous stored run); a wrapping database executes the SaveHistorical calls synchronously at exactly that store operation of the accept - NewBatch (before the first read), before / after the prune scan is opened, before the 1st..4th scan read, before / after batch.Write, iterator Release; a scan operation the accept never reaches is executed right after its batch.Write instead (still in flight), a Release never reached right after the accept returned. Fixed regression: state sync onto height 100, window 5, saves of 96,95,94 inside the accept of 102 at each of the 10 store operations. After the interleaved accept everything except the bound is judged (no error of either call, genesis and window complete - including in-flight saved blocks above the expiry height -, mappings consistent, nothing never-stored served); the bound is judged again after every later accept without injection and after every reopen. Non-trivial interleaved history = a save at or below the expiry height ran inside a pruning accept; distinct = distinct (backend, window, op sequence with injection points and heights). Concurrent cases: after a sequential prefix (genesis, state-sync target after a gap or a chain from genesis, a few sequential saves) goroutine A accepts 2..2W+7 next heights while goroutine B saves 1..2W+8 blocks top-down below the saved run (every store operation of both yields the processor); nothing is judged while they run; at quiescence the model applies all accepts, then all saves, and is compared without the bound, then 1..W+2 accepts run alone, each judged with the bound. Non-trivial concurrent case = window>0 and the lowest concurrently saved height is at or below the final expiry height; distinct = distinct (prefix, counts).")
 	r.Assume("accepted heights strictly increase (snowman accepts one chain); historical saves are below the last accepted height",
 		"window 0 means unbounded retention (documented in chain_index.go); the bound is not judged for it",
 		"a block at or below last-window may be pruned at any time (statement only requires the most recent window); the bound is judged after accepts and reopens, not between historical saves",
 		"background Compact goroutines are drained before a pebble database is closed",
 		"crash model: the store applies single Put/Delete calls and whole batches atomically and in order (memdb; pebble batches are atomic as well); a crash loses a suffix of the store operations; Compact is not a mutation",
 		"after a crash the node restarts with the configuration it was running with; consensus re-delivers the block whose index update was lost and a backfill repeats the interrupted historical save",
-		"a whole block stored above the surviving last accepted height (the write of the interrupted accept) is tolerated and not counted as retained")
+		"a whole block stored above the surviving last accepted height (the write of the interrupted accept) is tolerated and not counted as retained",
+		"a historical block saved at or below the expiry height while an UpdateLastAccepted is in flight may survive that accept (the accept scans a snapshot taken before the save); the pinned algorithm rescans from height 1 in every pruning accept, so ONE further accept that does not overlap a save restores the bound: the bound is judged at quiescent points from the first such accept (or a restart) on, never after an accept that overlapped a save and never mid-flight",
+		"injected saves run synchronously on the accepting goroutine inside the store wrapper (equivalent to a syncer goroutine that is scheduled exactly there); the store itself (memdb / pebble) is thread safe and scans iterate over a snapshot",
+		"concurrent cases are judged only at quiescence; their outcome may depend on the schedule, so a replay of such a witness repeats the case up to 200 times")
 	r.Extra("windows", c19Windows)
 
 	var stats c19Stats
@@ -524,6 +586,46 @@ func TestC19(t *testing.T) {
 		if c19Nontrivial(c) {
 			r.Distinct(c.shape())
 			r.Sample(c)
+		}
+	}
+	// histories with SaveHistorical calls inside in-flight accepts (c19_inter_test.go)
+	interN := 0
+	judgeInter := func(c c19Case) {
+		r.Eval()
+		stats.inter.hit = false
+		var key, d string
+		r.Guard("chainindex-interleaved", c, func() { key, d = runC19(c, &stats) })
+		if key == "harness" {
+			r.Inconclusive("harness problem: %s", d)
+			return
+		}
+		if d != "" {
+			r.Violation(key, c, "%s  [history %s]", d, c.shape())
+		}
+		if stats.inter.hit { // a save at or below the expiry height ran inside a pruning accept
+			r.Distinct("inter", c.shape())
+			if interN++; interN%200 == 1 {
+				r.Sample(c)
+			}
+		}
+	}
+	concN := 0
+	judgeConc := func(c c19ConcCase) {
+		r.Eval()
+		var key, d string
+		r.Guard("chainindex-concurrent", c, func() { key, d = runC19Conc(c, &stats) })
+		if key == "harness" {
+			r.Inconclusive("harness problem: %s", d)
+			return
+		}
+		if d != "" {
+			r.Violation(key, c, "%s  [%s; judged at quiescence, the outcome may depend on the schedule]", d, c.shape())
+		}
+		if c19ConcNontrivial(c) {
+			r.Distinct(c.shape())
+			if concN++; concN%100 == 1 {
+				r.Sample(c)
+			}
 		}
 	}
 	// write-level crash enumeration (c19_crash_test.go)
@@ -588,9 +690,17 @@ func TestC19(t *testing.T) {
 			r.Finish(0)
 			return
 		}
+		var kc c19ConcCase
+		if err := json.Unmarshal(rf.Witness, &kc); err == nil && kc.Accepts > 0 && len(kc.Pre) > 0 {
+			for i := 0; i < 200 && r.Violations() == 0; i++ { // schedule dependent: try a number of times
+				judgeConc(kc)
+			}
+			r.Finish(0)
+			return
+		}
 		var c c19Case
 		if err := json.Unmarshal(rf.Witness, &c); err == nil && len(c.Ops) > 0 {
-			judge(c)
+			judgeInter(c)
 			r.Finish(0)
 			return
 		}
@@ -608,6 +718,17 @@ func TestC19(t *testing.T) {
 		{Kind: "accept", H: 51}, {Kind: "accept", H: 52}, {Kind: "accept", H: 53},
 	}})
 
+	// state sync onto height 100 with window 5; the syncer saves 96, 95, 94 while the accept of 102
+	// (expiry height 97) is in flight - once at every store operation of that accept
+	for at := c19PtNewBatch; at <= c19PtNext0+c19PtNextMax; at++ {
+		ops := []c19Op{{Kind: "accept", H: 0}, {Kind: "accept", H: 100}, {Kind: "hist", H: 99}, {Kind: "hist", H: 98}, {Kind: "hist", H: 97},
+			{Kind: "accept", H: 101}, {Kind: "accept", H: 102, Inj: []c19Inj{{At: at, Hs: []uint64{96, 95, 94}}}}}
+		for h := uint64(103); h <= 110; h++ {
+			ops = append(ops, c19Op{Kind: "accept", H: h})
+		}
+		judgeInter(c19Case{Backend: "memdb", Salt: 9, Window: 5, Freq: 8, Ops: ops})
+	}
+
 	rng := r.Rand("histories")
 	n := r.N(4000, 100000)
 	for i := 0; i < n; i++ {
@@ -617,6 +738,25 @@ func TestC19(t *testing.T) {
 	prng := r.Rand("pebble-histories")
 	for i := 0; i < np; i++ {
 		judge(genC19(prng, "pebble", 25))
+	}
+	// interleaved histories: SaveHistorical inside in-flight accepts, deterministic
+	irng := r.Rand("interleaved-histories")
+	for i, ni := 0, r.N(4000, 40000); i < ni; i++ {
+		judgeInter(genC19x(irng, "memdb", r.N(30, 60), true))
+	}
+	iprng := r.Rand("interleaved-pebble-histories")
+	nip := r.N(15, 150)
+	for i := 0; i < nip; i++ {
+		judgeInter(genC19x(iprng, "pebble", 25, true))
+	}
+	// two goroutines (consensus accepts, syncer saves top-down), judged at quiescence
+	grng := r.Rand("concurrent-cases")
+	for i, ng := 0, r.N(400, 4000); i < ng; i++ {
+		judgeConc(genC19Conc(grng, "memdb"))
+	}
+	ngp := r.N(5, 50)
+	for i := 0; i < ngp; i++ {
+		judgeConc(genC19Conc(grng, "pebble"))
 	}
 	// crash points: every store operation of the fixed scenarios and of short
 	// histories, a PRNG sample of the store operations of longer ones
@@ -670,6 +810,31 @@ func TestC19(t *testing.T) {
 	r.Count("reopens", stats.reopens)
 	r.Count("reopens_with_other_window", stats.reopenDiff)
 	r.Count("height_probes", stats.probes)
-	r.Count("pebble_histories", np)
+	r.Count("pebble_histories", np+nip+ngp)
+	is := stats.inter
+	r.Count("inflight_accepts_with_injected_saves", is.accepts)
+	r.Count("inflight_accepts_that_had_to_prune", is.pruningAccepts)
+	r.Count("inflight_saves", is.savesInFlight)
+	r.Count("inflight_saves_point_not_reached_run_after_return", is.savesAfterReturn)
+	r.Count("inflight_injection_at_new_batch_before_first_read", is.atNewBatch)
+	r.Count("inflight_injection_before_scan_opened", is.atBeforeIter)
+	r.Count("inflight_injection_after_scan_opened", is.atAfterIter)
+	r.Count("inflight_injection_between_scan_reads", is.atNext)
+	r.Count("inflight_injection_before_batch_write", is.atBeforeWrite)
+	r.Count("inflight_injection_after_batch_write", is.atAfterWrite)
+	r.Count("inflight_injection_scan_point_not_reached_run_after_batch_write", is.atAfterWriteLate)
+	r.Count("inflight_injection_at_iterator_release", is.atRelease)
+	r.Count("inflight_saves_below_expiry_height", is.belowExpiry)
+	r.Count("inflight_saves_at_expiry_height", is.atExpiry)
+	r.Count("inflight_saves_above_expiry_height", is.aboveExpiry)
+	r.Count("inflight_saves_below_window_that_survived_their_accept", is.survivedBelowWindow)
+	r.Count("bound_judged_at_first_plain_accept_after_inflight_save_below_window", is.boundJudgedAfterInFlight)
+	r.Count("concurrent_cases", is.concCases)
+	r.Count("concurrent_accepts", is.concAccepts)
+	r.Count("concurrent_saves", is.concSaves)
+	r.Count("concurrent_saves_overlapping_an_inflight_accept", is.concOverlaps)
+	r.Count("concurrent_saves_below_final_window", is.concBelowFinal)
+	r.Count("concurrent_saves_below_final_window_present_at_quiescence", is.concSurvivors)
+	r.Count("concurrent_post_accepts_judged_with_bound", is.concPostAccepts)
 	r.Finish(r.N(500, 5000))
 }
